@@ -41,6 +41,7 @@ class ExecBase:
         self.npaths = 0
         self.cur_cls = None        # class of the function body being executed (for super())
         self.spec_inst_depth = 0
+        self.let_env = {}
         self.discovered_init = set()
 
     # ------------------------------------------------------------------ utilities
@@ -53,8 +54,27 @@ class ExecBase:
         self.obligations.append(Obligation(oid, kind, st.pc, goal, desc, st.path))
 
     def feasible(self, st, extra=None):
+        """path feasibility (pruning only: `unknown` keeps the path, which is always sound)"""
+        from .verify import has_quantifier
+        # 1. quantifier-free part: cheap, and unsat here is unsat for the whole path condition
         s = z3.Solver()
         s.set("timeout", self.feas_timeout)
+        qf = [p for p in st.pc if not has_quantifier(p)]
+        for p in qf:
+            s.add(p)
+        if extra is not None:
+            s.add(extra)
+        cs = list(self.w.str_consts.values())
+        if len(cs) > 1:
+            s.add(z3.Distinct(*cs))
+        r = s.check()
+        if r == z3.unsat:
+            return False
+        if len(qf) == len(st.pc):
+            return True
+        # 2. full path condition with a short budget
+        s = z3.Solver()
+        s.set("timeout", 400)
         for a in self.w.global_axioms():
             s.add(a)
         for p in st.pc:
@@ -135,6 +155,9 @@ class ExecBase:
             if kind == "int" and v.kind == "bool":
                 return V("int", z3.If(v.t, 1, 0))
             if isinstance(kind, tuple) and isinstance(v.kind, tuple) and kind[0] == v.kind[0] == "ref":
+                if kind[1] and v.cls and not self.w.is_subclass(v.cls, self.w.cls(kind[1])) \
+                        and not self.w.is_subclass(self.w.cls(kind[1]), v.cls):
+                    raise EngineError(f"static type mismatch: {self.w.short_name(v.cls)} where {kind[1]} expected")
                 return v
             if isinstance(kind, tuple) and isinstance(v.kind, tuple) and kind[0] == "enum" and v.kind[0] == "enum":
                 if self.w.cls(kind[1]) == self.w.cls(v.kind[1]):
